@@ -5,6 +5,7 @@ import VtProofs.Hilbert
 import VtProofs.VersatilesRead
 import VtProofs.PMTilesRead
 import VtProofs.TarRead
+import VtProofs.MBTilesCover
 /-!
 # C16 — readers accept every container that is valid by the published format layouts
 
@@ -199,6 +200,22 @@ theorem versatiles_cover_contains {K : Inflate} {file : Bytes} {fmt : TileFormat
 theorem tardir_cover_contains (r : TarDir.Reader) (t : (Nat × Nat × Nat) × Bytes) (ht : t ∈ r.tiles)
     (hz : t.1.2.2 ≤ 31) : ∃ box ∈ TarDir.cover r, box.level = t.1.2.2 ∧ box.contains2 t.1.1 t.1.2.1 = true :=
   VtProofs.TarRead.cover_contains r t ht hz
+
+/-- mbtiles: the reader's "estimate the row range on three columns, then refine" queries return the EXACT
+    column and row range of every level that has rows (bounds that are attained) -/
+theorem mbtiles_level_range_exact (db : MBTiles.DB) (z : Nat) (hne : ∃ r ∈ db, r.z = z) :
+    ∃ x0 y0 x1 y1, MBTiles.levelRange db z = some (x0, y0, x1, y1) ∧
+      (∀ r ∈ db, r.z = z → x0 ≤ r.col ∧ r.col ≤ x1 ∧ y0 ≤ r.row ∧ r.row ≤ y1) ∧
+      (∃ r ∈ db, r.z = z ∧ r.col = x0) ∧ (∃ r ∈ db, r.z = z ∧ r.col = x1) ∧
+      (∃ r ∈ db, r.z = z ∧ r.row = y0) ∧ (∃ r ∈ db, r.z = z ∧ r.row = y1) :=
+  VtProofs.MBTilesCover.levelRange_exact db z hne
+
+/-- mbtiles: every stored tile lies inside the advertised (y-flipped) box of its level -/
+theorem mbtiles_cover_contains (f : Option String) (db : MBTiles.DB) (r : MBTiles.Reader)
+    (h : MBTiles.openReader f db = .ok r) (row : MBTiles.Row) (hrow : row ∈ db)
+    (hc : row.col < 2 ^ row.z) (hr : row.row < 2 ^ row.z) :
+    ∃ box ∈ r.cover, box.level = row.z ∧ box.contains2 row.col (2 ^ row.z - 1 - row.row) = true :=
+  VtProofs.MBTilesCover.cover_contains f db r h row hrow hc hr
 
 /-! ## non-vacuity -/
 
